@@ -37,7 +37,7 @@ func NamePool(t *rapid.T, n int) []ref.Name {
 	}
 	for i := 0; i < n; i++ {
 		var nm ref.Name
-		switch rapid.IntRange(0, 4).Draw(t, "nameKind") {
+		switch rapid.IntRange(0, 5).Draw(t, "nameKind") {
 		case 0: // fresh
 			for k := rapid.IntRange(1, 4).Draw(t, "nl"); k > 0; k-- {
 				nm = append(nm, Label(t))
@@ -52,11 +52,37 @@ func NamePool(t *rapid.T, n int) []ref.Name {
 			}
 		case 3: // reverse-lookup owner
 			nm = ref.Name{fmt.Sprint(rapid.IntRange(0, 255).Draw(t, "d")), fmt.Sprint(rapid.IntRange(0, 255).Draw(t, "c")), fmt.Sprint(rapid.IntRange(0, 255).Draw(t, "b")), fmt.Sprint(rapid.IntRange(0, 255).Draw(t, "a")), "in-addr", "arpa"}
-		default: // many labels
+		case 4: // many labels
 			for k := rapid.IntRange(5, 40).Draw(t, "many"); k > 0; k-- {
 				nm = append(nm, string(rune('a'+k%26)))
 			}
 			nm = append(nm, base...)
+		default: // a name at (or next to) the 255 octet limit of RFC 1035 2.3.4, built from labels of drawn sizes
+			target := rapid.SampledFrom([]int{255, 255, 254, 253, 252, 200}).Draw(t, "wirelen")
+			nm = append(nm, base...)
+			style := rapid.IntRange(0, 2).Draw(t, "lblstyle")
+			for nm.WireLen() < target {
+				room := target - nm.WireLen() - 1
+				l := room
+				switch style {
+				case 0:
+					l = 1
+				case 1:
+					l = 63
+				default:
+					l = rapid.IntRange(1, 63).Draw(t, "ll")
+				}
+				if l > room {
+					l = room
+				}
+				if l > 63 {
+					l = 63
+				}
+				if l <= 0 {
+					break
+				}
+				nm = append(ref.Name{strings.Repeat(string(rune('a'+len(nm)%26)), l)}, nm...)
+			}
 		}
 		for nm.WireLen() > 255 && len(nm) > 1 {
 			nm = nm[1:]
@@ -211,6 +237,19 @@ type NBNSName struct {
 	Group  bool
 }
 
+// NBNSNodeStatusTrimmed is NBNSNodeStatus with the last trim bytes of the RDATA missing (RDLENGTH says so too).
+func NBNSNodeStatusTrimmed(id uint16, owner string, names []NBNSName, declared int, statsLen int, trim int) []byte {
+	b := NBNSNodeStatus(id, owner, names, declared, statsLen)
+	rdOff := 12 + 34 + 10 // header, encoded owner name, type/class/ttl/rdlength
+	rdlen := len(b) - rdOff
+	if trim > rdlen {
+		trim = rdlen
+	}
+	b = b[:len(b)-trim]
+	b[rdOff-2], b[rdOff-1] = byte((rdlen-trim)>>8), byte(rdlen-trim)
+	return b
+}
+
 func NBNSNodeStatus(id uint16, owner string, names []NBNSName, declared int, statsLen int) []byte {
 	b := []byte{byte(id >> 8), byte(id), 0x84, 0x00, 0, 0, 0, 1, 0, 0, 0, 0}
 	b = append(b, NBNSEncodeName(owner, 0)...)
@@ -248,7 +287,11 @@ func NBNSPayload(t *rapid.T) []byte {
 		if rapid.IntRange(0, 4).Draw(t, "lie") == 0 {
 			declared = rapid.SampledFrom([]int{0, n + 1, n + 5, 255}).Draw(t, "declared")
 		}
-		return NBNSNodeStatus(id, "*", names, declared, rapid.SampledFrom([]int{0, 46, 3}).Draw(t, "stats"))
+		stats := rapid.SampledFrom([]int{0, 46, 3}).Draw(t, "stats")
+		if rapid.IntRange(0, 3).Draw(t, "trimmed") == 0 { // record cut short inside the name array (RDLENGTH consistent with what is there)
+			return NBNSNodeStatusTrimmed(id, "*", names, declared, stats, rapid.SampledFrom([]int{1, 2, 3, 17, 18, 19, stats + 1}).Draw(t, "trim"))
+		}
+		return NBNSNodeStatus(id, "*", names, declared, stats)
 	case 2: // positive name query response: type 0x20
 		b := []byte{byte(id >> 8), byte(id), 0x85, 0x00, 0, 0, 0, 1, 0, 0, 0, 0}
 		b = append(b, NBNSEncodeName("WORKSTATION", 0)...)
